@@ -119,29 +119,24 @@ Definition spec_ok (c : case) : bool :=
 (* ---------------------------------------------------------------- recorded findings *)
 Definition fnth (l : list Z) (i : nat) : Z := nth i l 0.
 
+(* recorded, still open findings of the exploration part: 6, 8, 11 and the second site of 14 (top-k
+   executor).  The lexer / literal findings 1..5, 12 and the findings 7, 9, 10, 13 were repaired in
+   /repo; their witnesses run as corpus cases and must now satisfy spec_ok. *)
 Definition known_class (c : case) : Z :=
   match c with
   | Lex _ _ => 0
-  | Lit f s o => match o with LitPanic => lit_known f s | _ => 0 end
+  | Lit _ _ _ => 0
   | Api _ feat o =>
       match o with
       | APanic file cls =>
-          if (file =? 1) && (cls =? 1) && (fnth feat 2 =? 1) then 5          (* literal.rs char boundary, non-ASCII text *)
-          else if (file =? 45) && (cls =? 4) && (fnth feat 5 =? 1) then 6    (* src/records builder, a write statement *)
-          else if (cls =? 3) && (fnth feat 4 =? 1) then 7                    (* Decimal parameter, scale >= 39 or < 0 *)
+          if (file =? 45) && (cls =? 4) && (fnth feat 5 =? 1) then 6         (* src/records builder, a write statement *)
           else if (cls =? 7) && (Z.land (fnth feat 6) 1 =? 1) then 8         (* LPAD/RPAD/REPEAT/SPACE capacity overflow *)
-          else if (file =? 11) && (cls =? 1) && (Z.land (fnth feat 6) 2 =? 2) && (fnth feat 2 =? 1) then 9
-                                                                             (* datetime.rs char boundary, x_FORMAT call *)
-          else if (file =? 14) && (cls =? 2) && (fnth feat 7 =? 1) && (fnth feat 5 =? 1) then 10
-                                                                             (* convert.rs: JSON text that is one double quote *)
-          else if (file =? 9) && (cls =? 0) && (Z.land (fnth feat 6) 4 =? 4) then 13
-                                                                             (* string.rs FORMAT: precision out of range *)
-          else if (file =? 42) && (cls =? 3) && (fnth feat 8 =? 1) then 14   (* planner: LIMIT + OFFSET overflow *)
+          else if ((file =? 4) || (file =? 42)) && (cls =? 3) && (fnth feat 8 =? 1) then 14
+                                                                             (* executor / planner: LIMIT + OFFSET overflow *)
           else 0
       | AAbort =>
-          if (1000 <=? fnth feat 0) || (1000 <=? fnth feat 3) then 11        (* parser / planner recursion *)
-          else if 10000 <=? fnth feat 1 then 12                              (* lexer recursion over comments *)
-          else if Z.land (fnth feat 6) 1 =? 1 then 8                         (* REPEAT / SPACE / RPAD: memory exhausted *)
+          if (1000 <=? fnth feat 0) || (1000 <=? fnth feat 3) then 11        (* parser / planner / JSON recursion *)
+          else if Z.land (fnth feat 6) 1 =? 1 then 8                         (* REPEAT / SPACE / LPAD: memory exhausted *)
           else 0
       | ATimeout => if Z.land (fnth feat 6) 1 =? 1 then 8 else 0             (* RPAD: unbounded loop *)
       | _ => 0
